@@ -98,7 +98,7 @@ class ParFlow:
         cand = list(us)
         r.shuffle(cand)
         for (uid, he, kind, deps) in cand[: (6 if quick else 20)]:
-            out.append(("panic", {uid: r.choice(["panic", "panic", "panic-err", "panic-pe", "panic-str"])}))
+            out.append(("panic", {uid: r.choice(["panic", "panic", "panic-err", "panic-pe", "panic-str", "panic-rt"])}))
             if he:
                 out.append(("err", {uid: "err"}))
         if len(us) >= 2:
@@ -132,8 +132,13 @@ class ParFlow:
             opts.append("cff.Concurrency(%s)" % arg("conc"))
         if self.coe:
             opts.append("cff.ContinueOnError(%s)" % arg("true"))
+        same_text = self.emitters >= 2 and self.idx % 2 == 0     # the same expression text at two argument positions
         for e in range(self.emitters):
-            opts.append("cff.WithEmitter(%s)" % arg("x.Emitter(\"e%d\")" % e))
+            if same_text:
+                argn[0] += 1
+                opts.append("cff.WithEmitter(Auto(x, x.NextEmitter()))")
+            else:
+                opts.append("cff.WithEmitter(%s)" % arg("x.Emitter(\"e%d\")" % e))
         if self.instr:
             opts.append("cff.InstrumentParallel(%s)" % arg("\"%s\"" % n))
         for it in self.items:
